@@ -263,7 +263,7 @@ def run_output(case, out):
         if mode == 'fragment':
             empty = dict(bundle, blocks=bundle['blocks'][:-1] + [dict(bundle['blocks'][-1], data='')])
             # feasible fragmentation only (an MTU below the header size is C05's subject)
-            node.config.tx_route_table[0].mtu = len(r.encode(empty)) + 60
+            node.set_mtu(0, len(r.encode(empty)) + 60)
         node.send(BundleContainer(obj))
     else:
         dest = {'forward': ['dtn', '//fwd/x'], 'deliver': ['dtn', '//me/svc'], 'delete': ['dtn', '//del/x']}[mode]
